@@ -96,15 +96,27 @@ SliceImpl(ev, post) ==
 (* merge of close groups: compare with the operator when every base is determined *)
 AllTieFree(d, g, prm) == \A id \in IdsPresent(g) : TieFree(d, Selected(d, MemIdx(g, id), prm), prm.lb)
                                                    /\ TieFree(d, MemIdx(g, id), prm.lb)
+(* bundles of overlapping slices, isolation flags, majority vote: the pre-merge grouping is a function of the *)
+(* slices table and of the per-bundle clusterings (skipped when a limit comparison sits exactly on a tie)    *)
+BundleImpl(ev, post, prm) ==
+  LET st == post.tbl.slices IN
+  IF prm.pad < 0 \/ ~ev.taps.hasg0 \/ AnyOverlapTie(st, prm.pad) THEN {}
+  ELSE LET pm == PreMergeGrouping(post.data, post.ids.s, st, prm.pad, ev.taps.clu) IN
+       Chk("I_Isolated", \A i \in Idx(st) : st[i].x = (IF IsolatedSlice(st, i, prm.pad) THEN 1 ELSE 0)) \cup
+       Chk("I_BundleTaps", pm.ok) \cup
+       (IF pm.ok THEN Chk("I_PreMergeGrouping", pm.g = ev.taps.g0) ELSE {})
 GroupImpl(ev, post, prm) ==
   IF ~ev.taps.hasg0 THEN {}
   ELSE LET d == post.data  g0 == ev.taps.g0 IN
+       BundleImpl(ev, post, prm) \cup
        Chk("I_G1Logged", post.ids.g = ev.taps.g1) \cup
        (IF AllTieFree(d, g0, prm) /\ AllTieFree(d, post.ids.g, prm)
            /\ ~MergeTies(d, g0, PrelimTable(d, g0, prm), prm, TRUE)
         THEN Chk("I_MergeClose", post.ids.g = MergeClose(d, g0, prm, TRUE)) ELSE {})
 GroupMarks(ev, post, prm) ==
   Mark("N_merge", ev.taps.hasg0 /\ ev.taps.g0 # ev.taps.g1) \cup
+  Mark("N_bundle", prm.pad >= 0 /\ Len(Bundles(post.tbl.slices, prm.pad)) > 0) \cup
+  Mark("N_bundlecut", ev.taps.hasg0 /\ \E i, j \in Idx(post.data) : post.ids.s[i] = post.ids.s[j] /\ ev.taps.g0[i] # ev.taps.g0[j]) \cup
   Mark("N_2groups", Len(post.tbl.groups) >= 2) \cup
   Mark("N_sepbin2", \E i \in Idx(post.tbl.groups) : MinSepIdx(post.tbl.groups[i].b, prm) > 1)
 
